@@ -55,6 +55,7 @@ class World:
         self.snapdir = os.path.join(self.root, "snaps")
         os.mkdir(self.snapdir)
         self.nsnap = 0
+        self.dirty = set()
         self.init = self.snapshot()
         self.tiplog = []
         self._hook()
@@ -86,11 +87,17 @@ class World:
         shutil.rmtree(snap[1], ignore_errors=True)
 
     def restore(self, snap):
+        """Put the world back to a snapshot; a checkout directory is re-copied only if it may have been
+        touched since the same snapshot was restored last (events name the checkout they act on)."""
         self.store.hook = None
         self.store.restore(snap[0])
         del self.store.log[:]
+        same = getattr(self, "_restored", None) == snap[1]
         for i in (1, 2):
-            W.copytree(os.path.join(snap[1], "c%d" % i), self.cpath(i))
+            if not same or i in self.dirty:
+                W.copytree(os.path.join(snap[1], "c%d" % i), self.cpath(i))
+        self._restored = snap[1]
+        self.dirty = set()
 
     def master(self):
         from breezy.branch import Branch
@@ -301,6 +308,8 @@ def execute(w, ev, step):
     ts = 1e9 + 10 + step
     kind = ev[0]
     del w.tiplog[:]
+    if len(ev) > 1:
+        w.dirty.add(ev[1])
     try:
         if kind == "commitM":
             m = w.master()
